@@ -216,7 +216,41 @@ class HashCost:
                 # precise: from the success target no path returns to h
                 leaves = all(h not in g.reachable_from(tb, True) for tb in succ_ok)
                 if leaves and any(g.dominates(fb, phb) for fb in fail):
-                    return True
+                    # ... and the rebuild really enlarges the table (otherwise the retry fails again and rebuilds again):
+                    # its capacity argument must be at least twice the current capacity (a term, not a value)
+                    if self._rebuild_grows(body, phb):
+                        return True
+                    self.res.note("retry loop in %s: the rebuild's capacity argument is not a multiple (>= 2x) of the current capacity" % body.path)
+        return False
+
+    def _rebuild_grows(self, body, phb):
+        from ..terms import TermEval, subterms, poly_terms, show
+        te = TermEval(self.ctx.facts, self.ctx.cg, inline=False)
+        try:
+            paths = te.paths(body, max_visits=2, max_paths=200)
+        except Exception:
+            return False
+        seen = False
+        for p in paths:
+            if phb not in p:
+                continue
+            pr = te.eval_path(body, p)
+            for (bb, full, argt, val, c) in pr.calls:
+                if bb != phb:
+                    continue
+                seen = True
+                ok = False
+                for a in argt:
+                    for t in subterms(a):
+                        if isinstance(t, tuple) and t and t[0] == "poly":
+                            for coef, mono in poly_terms(t):
+                                if coef >= 2 and len(mono) == 1 and mono[0][0] == "call" and ("::capacity" in mono[0][1] or "::len" in mono[0][1]):
+                                    ok = True
+                if not ok:
+                    return False
+        return seen
+
+    def _unused(self):
         return False
 
     def _classify_loop(self, body, g, h, blocks, w, retire):
